@@ -147,4 +147,13 @@ CHECKS["C11"] = dict(
            dict(name="longhistory", run="^TestLongHistoryOverlap$", quick=120, thorough=4000, shards_thorough=4)],
 )
 
+CHECKS["C07"] = dict(
+    pkg="c07", race=True, level="fault_enumeration", timeout_quick=900, timeout_thorough=3000,
+    technique="bounded-exhaustive pairwise enumeration (operation parked at a hook point x interleaving operation x consumer state x config x decorator depth) with forced schedules, plus rapid-generated concurrent programs with an early Close; termination/closure/leak oracle; race detector",
+    level_text="The complete table of (configuration, decorator depth, operation A parked at each of its hook points, operation B, consumer state) is enumerated (quick: one eighth chosen by seed; thorough: all entries over 16 shards); in every entry B is invoked while A is parked, then A is released and the Pub/Sub closed. Every call must return, every output channel must close, Publish/Subscribe must fail afterwards and no Pub/Sub goroutine may remain; random programs with a Close landing between generated Publish calls extend this beyond pairs.",
+    level_note="Trusted: the hook controller (park/release), goroutine-dump based leak detection, 10 s liveness bounds re-confirmed by one re-run. Entries whose hook point is not reached run unforced and are counted as such. " + _GC_NOTE,
+    steps=[dict(name="table", run="^TestPairwiseTable$", quick=1, thorough=1, shards_thorough=12),
+           dict(name="random", run="^TestRandomCloseCancel$", quick=200, thorough=12000, shards_thorough=4)],
+)
+
 NOT_APPLICABLE = {}
